@@ -9,7 +9,7 @@ HEADER = """C20 — Graphs may be mutated from inside edge loops and traversal c
    from inside the closure — one more instance of "arbitrary callback". Handles stay valid
    by construction: allocation ids are never reused or removed from the heap. That the implementation's iterators really hold
    no borrow/lock across the body is what the correspondence checks (RefCell panics / lock probe / watchdog)."""
-REQUIRES = ["From Gdsl.Model Require Import Spec Callback Mutation.", "From Gdsl.Proofs Require Import MutationProof MutationBudget."]
+REQUIRES = ["From Gdsl.Model Require Import Spec Callback Mutation.", "From Gdsl.Proofs Require Import MutationProof MutationBudget ConcProof.", "From Gdsl.Model Require Import Conc."]
 PINS = [
  ("c20_edge_loop_log_erase", "edge_loop_log_erase", "instrumenting the callback does not change an edge loop"),
  ("c20_traversal_log_erase", "run_search_log_erase", "... nor a search"),
@@ -18,6 +18,7 @@ PINS = [
  ("c20_traversal_yields_exist", "traversal_yields_exist", "every edge a search hands to the closure is, at that moment, an adjacency entry of its source in the current heap"),
  ("c20_order_yields_exist", "order_yields_exist", "same for orderings"),
  ("c20_search_never_panics", "search_never_panics", "whatever the closure does to the graph, backtracking never panics"),
+ ("c20_no_guard_held_between_critical_sections", "one_guard_per_thread", "sync flavours, micro-step model (Conc.v): a thread holds at most one guard and only inside the critical section it is parked at — in particular none while a closure body or loop body runs between two `next()` calls, so an operation called from there never waits for a guard of its own thread (checked on the real code by the lock-point hook at every acquisition)"),
  ("c20_script_keeps_invariant_directed", "mk_cb_inv_d", "operations executed from inside a closure keep the mirror invariant and none of them panics (directed)"),
  ("c20_script_keeps_invariant_undirected", "mk_cb_inv_u", "same (undirected)"),
  ("c20_invariant_after_loop", "traversal_inv", "if the closure keeps the invariant, it holds after every search, ordering and edge loop"),
